@@ -369,7 +369,9 @@ func builtinCall(r *rand.Rand, names []string) string {
 	return s
 }
 
-var c08Flags = []string{"-r", "-j", "--raw-output0", "-c", "--tab", "--indent", "--indent=3", "--indent", "-C", "-M", "-n", "-R", "--stream", "--yaml-input", "--yaml-output", "-s", "-e", "-f", "--from-file", "-L", "--library-path", "--arg", "--argjson", "--slurpfile", "--rawfile", "--args", "--jsonargs", "-v", "-h", "--", "-", "--unknown", "-x", "-rj", "-nr", "-sR", "-cn", "--indent=-1", "--indent=99", "--arg=a", "-L.", "--seq", "--exit-status", "-e", "--color-output", "--null-input", "--slurp", "--raw-input"}
+var c08Flags = []string{"-r", "-j", "--raw-output0", "-c", "--tab", "--indent", "--indent=3", "--indent", "-C", "-M", "-n", "-R", "--stream", "--yaml-input", "--yaml-output", "-s", "-e", "-f", "--from-file", "-L", "--library-path", "--arg", "--argjson", "--slurpfile", "--rawfile", "--args", "--jsonargs", "-v", "-h", "--", "-", "--unknown", "-x", "-rj", "-nr", "-sR", "-cn", "--indent=-1", "--indent=99", "--arg=a", "-L.", "--seq", "--exit-status", "-e", "--color-output", "--null-input", "--slurp", "--raw-input",
+	// clusters of short flags that end in (or contain) the one that takes a value
+	"-nL", "-rL", "-ncL", "-sRL", "-eL", "-nrL", "-Ln", "-nL.", "-nL=.", "-nf", "-rf", "-fn", "-nfL", "-L", "-nL", "-cL"}
 var c08FlagArgs = []string{"a", "1", "x", "{}", "[1,2", "f.jq", "d.json", "bad.json", "missing", "adir", ".", "-1", "8", "0", "", "$x", "a b", "\x00", "null", "\"s\"", "1e1000", "../", "/dev/null", "/proc/self/environ"}
 var c08Queries = []string{".", ".a", ".[]", "..", "$x", "$a", "$ARGS", "$ARGS.named", "$ARGS.positional[0]", "$__prog_args", "input", "[inputs]", "inputs", "input_filename", "halt", "halt_error", "halt_error(1)", "\"x\"|halt_error(300)", "{}|halt_error(-1)", "error", "error(null)", ".[] as [$a] ?// $a | $a", "import \"m\" as m; m::f", "include \"m\"; f", "import \"d\" as $d; $d", "import \"bad\" as b; .", "modulemeta", "\"m\"|modulemeta", "env|length", "$ENV.PATH", "now|type", "@base64d", "@sh", "tojson", "fromjson", "ltrimstr(1)", "splits(\"(\")", "test(\"a\";\"x\")", "[limit(3;repeat(1))]", "range(1e9)|select(.>3)|halt", "def f: f; 1", "", " ", "#", ".a.b.c.d", "[.[]?]", "{(.[]?|tostring):1}", "tostream", "fromstream(inputs)", "getpath([\"a\",0])", "to_entries", ". as {a:$x} | $x", "label $f | 1, break $f", "reduce inputs as $x (0; .+1)", "first(inputs)", "input_line_number", "$__loc__", "get_search_list", "debug", "stderr", "debug(\"m\")", "[.,input]", "ascii", "@text \"\\(.)\"", "\"\\u0000\"", "\"\\ud800\"", "1e1000", "-0", "[nan]|tojson", "infinite", "implode", "[1114112]|implode", "[-1]|implode", "\"a\"*1e9|length", "[range(100000)]|length", ".[1e10]=1", ".[-1e10]", "setpath([1e9];1)", ".[\"a\",0]", "..|=.", "del(..)", "paths", "leaf_paths", "splits", "significand", "gamma", "pow(2;1e4)", "ldexp(1;1e10)", "\"\\(1,2)\\(3,4)\"", "@json \"\\(.)\"", "strptime(\"%Y\")", "strftime(\"%\")", "mktime", "todate", "1e20|todate", "\"x\"|fromdate", "gmtime", "localtime", "dateadd(\"seconds\";1)", "tojson|fromjson", "utf8bytelength", "toboolean", "getpath(1)", "setpath(1;2)", "delpaths(1)", "has(null)", "in(null)", "contains(1)", "inside(1)", "combinations", "combinations(1e3)", "walk(1)", "transpose", "flatten(-1)", "range(0;1;0)", "limit(-1;1)", "nth(-1;1)", "until(true;1)", "repeat(1)|halt", "env.PATH|test(\".\")", "splits(1)", "sub(\"a\";\"b\";\"z\")", "gsub(\"\";\"x\")", "[match(\"\";\"g\")]|length", "capture(\"(?<a>.)(?<a>.)\")", "scan(\"(\")", "test(\"\\\\\")", "ascii_downcase", "@base64", "@uri", "@urid", "@csv", "@tsv", "@html", "ltrimstr(\"a\")", "trim", "ltrim", "rtrim", "trimstr(\"a\")", "abs", "toarray", "have_literal_numbers", "pick(.a)", "pick(.[0])", "pick(first)", "debug(1,2)", "scan(\"a\";\"g\")", "splits(\"a\";null)", "ascii(1)", "@foo", "$__loc__.file", "input|input", "try input catch .", "limit(1;inputs)", "[.[]|tostring]", "tojson|.[0:1]", "getpath([\"a\"];1)", "error(\"x\";1)", "ltrimstr", "f", "f(1)", "def f(a;b;c;d;e;g;h;i;j;k;l;m;n;o;p;q;r;s;t;u;v;w;x;y;z;aa;bb;cc;dd;ee;ff): 1; f(1;2;3;4;5;6;7;8;9;10;11;12;13;14;15;16;17;18;19;20;21;22;23;24;25;26;27;28;29;30;31)"}
 
@@ -384,6 +386,10 @@ func c08RandomCLI(r *rand.Rand) c08CLI {
 		switch f {
 		case "--indent", "-L", "--library-path":
 			args = append(args, c08FlagArgs[r.IntN(len(c08FlagArgs))])
+		case "-nL", "-rL", "-ncL", "-sRL", "-eL", "-nrL", "-cL", "-nfL":
+			if r.IntN(4) > 0 { // otherwise whatever comes next (or nothing) is taken for the value
+				args = append(args, []string{".", "lib", "/nonexistent", "", "-"}[r.IntN(5)])
+			}
 		case "--arg", "--argjson", "--slurpfile", "--rawfile":
 			args = append(args, c08FlagArgs[r.IntN(len(c08FlagArgs))])
 			if r.IntN(8) > 0 {
